@@ -330,6 +330,17 @@ pub fn replay(w: &Value) -> Option<Violation> {
             let mut t = vec![];
             limit(&mut st, (w["p"].as_i64()?, w["q"].as_i64()?), &[w["bound"].as_i64()?], &mut t);
         }
+        "python" => {
+            // re-derive the quick table and have python3 confirm it again
+            let mut table = vec![];
+            let bounds: Vec<i64> = (2..=64).collect();
+            for a in all_phases(100) {
+                limit(&mut st, a, &bounds, &mut table);
+            }
+            if let Err(e) = python_confirm(&table) {
+                st.violation(Violation { sig: "limit_denominator|differs-from-python".into(), detail: e, witness: w.clone() });
+            }
+        }
         _ => floats(&mut st),
     }
     st.viols.into_values().next().map(|(_, v)| v)
